@@ -195,9 +195,8 @@ mut('C15', 'grid', """            if not self._index:
             self._index[str(value["id"])] = value""", """            self._index[str(value["id"])] = value""", name='insert without ensure-index')
 mut('C15', 'grid', 'self._index[str(value["id"])] = value', 'self._index[value["id"]] = value')
 mut('C15', 'grid', "return self._index[str(key)]", "return self._index[key]")
-mut('C15', 'grid', """        self._index = {}
-        for item in self._row:""", """        if self._index is None:
-            self._index = {}
+mut('C15', 'grid', """        index = {}
+        for item in self._row:""", """        index = self._index or {}
         for item in self._row:""", name='reindex keeps stale entries')
 mut('C15', 'grid', "return self._index.get(str(index), default)", "return self._index.get(str(index))")
 mut('C15', 'grid', "            result._index=None\n", "            result._index=self._index\n")
@@ -949,3 +948,99 @@ mut('C10', 'grid', "    def version(self):  # pragma: no cover\n        # Trivia
 mut('C07', 'grid', "    def version(self):  # pragma: no cover\n        # Trivial function\n        return self._version", "    def version(self):  # pragma: no cover\n        # Trivial function\n        return self.nearest_version", name='Grid.version returns the nearest version')
 mut('C03', 'zincparser', "    Bin(toks[1]) if toks[0] == 'Bin' else XStr(toks[0], toks[1])])", "    Bin(toks[1]) if toks[0] == 'Bi' else XStr(toks[0], toks[1])])", name='Bin head word misspelt in the action')
 mut('C11', 'datatypes', "        return 'XStr(%r, %r)' % (self.encoding, self.data_to_string())", "        return 'XStr(%r, %r)' % (self.data, self.data_to_string())", name='XStr repr shows the payload as encoding')
+
+# ---- round 6 ------------------------------------------------------------------------------------------
+_REIDX = """        index = {}
+        for item in self._row:
+            if "id" in item:
+                index[str(item["id"])] = item
+        self._index = index"""
+_REIDX_INPLACE = """        self._index = {}
+        for item in self._row:
+            if "id" in item:
+                self._index[str(item["id"])] = item"""
+mut('C13', 'grid', _REIDX, _REIDX_INPLACE, rule='C13.D5', name='id index emptied and refilled in place (visible half-built)')
+mut('C15', 'grid', _REIDX, _REIDX_INPLACE, 'OK', name='(sequentially the same) id index refilled in place')
+mut('C13', 'grid', _REIDX, """        self._index = {str(item["id"]): item for item in self._row if "id" in item}""", 'OK',
+    name='id index built by one comprehension')
+mut('C18', 'version', "        num2 += tuple([0 for n in range(len(num2), ver_len)])", "        num2 += tuple([0 for n in range(len(num1), ver_len)])",
+    rule='C18.D2', name='right operand padded by the length of the left one')
+_UNITS = "            if other.unit != self.unit:"
+mut('C20', 'datatypes', _UNITS, "            if self.unit and other.unit and other.unit != self.unit:", name='unit-less quantity compares with any unit')
+mut('C19', 'datatypes', _UNITS, "            if (other.unit or None) != (self.unit or None):", rule='C19.D1', name="units None and '' taken for the same unit")
+mut('C20', 'datatypes', _UNITS, "            if not (other.unit == self.unit):", 'OK', name='unit test spelled with not ==')
+mut('C19', 'datatypes', _UNITS, "            if not (other.unit == self.unit):", 'OK', name='unit test spelled with not ==')
+_SDIDX = "    def index(self, *args, **kwargs):\n        return self._order.index(*args, **kwargs)"
+mut('C16', 'sortabledict', _SDIDX, "    def index(self, key, default=None):\n        if key not in self._values:\n            return default\n        return self._order.index(key)",
+    rule='C16.D5', name='index() answers a default for an absent key')
+mut('C16', 'sortabledict', _SDIDX, "    def index(self, key):\n        if key not in self._values:\n            raise ValueError(key)\n        return self._order.index(key)",
+    'OK', name='index() raises ValueError itself for an absent key')
+_GLEN = "    def __len__(self):\n        '''\n        Return the number of rows in the grid.\n        '''"
+mut('C14', 'grid', _GLEN, "    def pop(self, index=-1):\n        row = self[index]\n        self.remove(row)\n        return row\n\n" + _GLEN,
+    rule='C14.D1', name='pop removes the first equal row')
+mut('C14', 'grid', _GLEN, "    def pop(self, index=-1):\n        row = self[index]\n        del self[index]\n        return row\n\n" + _GLEN,
+    'OK', name='pop spelled out as the mixin')
+mut('C11', 'grid_filter', "        for i, path in enumerate(paths):\n            obj = obj[path]\n            if i != len(paths)-1 and isinstance(obj, Ref):",
+    "        for path in paths:\n            obj = obj[path]\n            if path != paths[-1] and isinstance(obj, Ref):", rule='C11.D7',
+    name='last hop recognised by its name')
+_REFREPR = """        return '%s(%r, %r, %r)' % (
+            self.__class__.__name__, self.name, self.value, self.has_value
+        )"""
+mut('C12', 'datatypes', _REFREPR, """        if self.has_value:
+            return '%s(%r, "%s")' % (self.__class__.__name__, self.name, self.value)
+        return '%s(%r)' % (self.__class__.__name__, self.name)""", rule='C12.D2', name='Ref repr quotes the display string by hand')
+mut('C12', 'datatypes', _REFREPR, """        if self.has_value:
+            return '%s(%r, %r)' % (self.__class__.__name__, self.name, self.value)
+        return '%s(%r)' % (self.__class__.__name__, self.name)""", 'OK', name='Ref repr with two closed forms')
+mut('C08', 'zincparser', "                    if uri and (esc_c == '#'):", "                    if uri and (esc_c in ':/?#[]@\\\\&=;'):", rule='C08.D1',
+    name='reader keeps the backslash of every URI delimiter escape')
+_DEC = """    if isinstance(decimal, float):
+        # Non-finite values have their own spelling in ZINC
+        if decimal != decimal:
+            return 'NaN'
+        elif decimal == float('inf'):
+            return 'INF'
+        elif decimal == -float('inf'):
+            return '-INF'
+    return str(decimal)"""
+mut('C04', 'zincdumper', "def dump_decimal(decimal, version=LATEST_VER):\n" + _DEC,
+    "NON_FINITE = {float('inf'): 'INF', float('-inf'): '-INF', float('nan'): 'NaN'}\n\n\ndef dump_decimal(decimal, version=LATEST_VER):\n"
+    "    if isinstance(decimal, float) and decimal in NON_FINITE:\n        return NON_FINITE[decimal]\n    return str(decimal)",
+    rule='C04.D1', name='NaN looked up in a table (nan is never `in` it)')
+mut('C04', 'zincdumper', "def dump_decimal(decimal, version=LATEST_VER):\n" + _DEC,
+    "NON_FINITE = {float('inf'): 'INF', float('-inf'): '-INF'}\n\n\ndef dump_decimal(decimal, version=LATEST_VER):\n"
+    "    if isinstance(decimal, float):\n        if decimal != decimal:\n            return 'NaN'\n        if decimal in NON_FINITE:\n"
+    "            return NON_FINITE[decimal]\n    return str(decimal)", 'OK', name='infinities looked up in a table, NaN tested first')
+_HASV = "        self.has_value = has_value or (value is not None)"
+for _p in ('C01', 'C02', 'C08', 'C07'):
+    mut(_p, 'datatypes', _HASV, "        self.has_value = bool(has_value or value)", name='empty display string taken for none (Ref.__init__)')
+    mut(_p, 'datatypes', _HASV, "        self.has_value = (value is not None) or has_value", 'OK', name='has_value with the operands swapped')
+_JREF = "        if matched[-1] is not None:\n            return Ref(matched[0], matched[-1], has_value=True)"
+for _p in ('C02', 'C08'):
+    mut(_p, 'jsonparser', _JREF, "        if matched[-1]:\n            return Ref(matched[0], matched[-1], has_value=True)",
+        name='JSON reference display decided by truthiness')
+mut('C02', 'jsonparser', _JREF + "\n        else:\n            return Ref(matched[0])",
+    "        if matched[-1] is None:\n            return Ref(matched[0])\n        else:\n            return Ref(matched[0], matched[-1], has_value=True)",
+    'OK', name='JSON reference branches swapped under `is None`')
+mut('C01', 'zincparser', "toks[1] if len(toks) > 1 else None)", "(toks[1] if len(toks) > 1 else None) or None)", name='ZINC reference display passed through `or`')
+_ZEXC = "        except:  # pragma: no cover\n            # Unlikely to occur, might do though if Project Haystack changes"
+mut('C03', 'zincparser', _ZEXC, _ZEXC.replace('except:', 'except KeyError:'), rule='C03.D5', name='zone look-up handler narrowed to KeyError')
+mut('C03', 'zincparser', _ZEXC, _ZEXC.replace('except:', 'except Exception:'), 'OK', name='zone look-up handler spelled except Exception')
+mut('C05', 'jsonparser', "            except:  # pragma: no cover\n                # Unlikely code path.", "            except KeyError:  # pragma: no cover\n                # Unlikely code path.",
+    rule='C05.D4', name='JSON zone look-up handler narrowed to KeyError')
+mut('C07', 'zincparser', "            return [isodt.astimezone(tz)]", "            return [tz.localize(isodt.replace(tzinfo=None))]", name='ZINC reader re-labels the wall clock')
+mut('C09', 'zincparser', "[iso8601.parse_date(toks[0].upper())]", "[iso8601.parse_date(toks[0].upper(), default_timezone=None)]", rule='C09.D3',
+    name='stamps parsed naive: the .localise branch becomes live')
+_VG = "        version_given = version is not None"
+mut('C09', 'grid', _VG, "        version_given = bool(version)", rule='C09.D4', name='empty nested version never reaches Version()')
+mut('C09', 'grid', _VG + "\n        if version_given:\n            version = Version(version)\n        else:\n            version = VER_2_0",
+    "        version_given = version is not None\n        if not version_given:\n            version = VER_2_0\n        else:\n            version = Version(version)",
+    'OK', name='version conversion under the inverted test')
+mut('C10', 'grid', "            result=Grid(version=self.version,metadata=self.metadata,columns=self.column)",
+    "            result=Grid(version=self._version if self._version_given else None,metadata=self.metadata,columns=self.column)",
+    rule='C10.D2', name='slice created with the version the parent was GIVEN')
+mut('C12', 'grid_filter', "    return FilterAST(hs_filter.parseString(filter, parseAll=True)[0])",
+    "    import warnings as _w\n    with _w.catch_warnings():\n        return FilterAST(hs_filter.parseString(filter, parseAll=True)[0])", name='(alias) warnings filter swapped while parsing', expect='V')
+mut('C13', 'grid_filter', "    return _FnWrapper(fun_name, function_template)",
+    "    w = _SEEN.get(repr(def_filter))\n    if w is None:\n        w = _SEEN[repr(def_filter)] = _FnWrapper(fun_name, function_template)\n    return w",
+    rule='C13.D3', name='compiled filters shared through a store keyed by a rendering')
